@@ -49,13 +49,11 @@ TRUSTED = ['model MetaGrid.v hand-written from mapproxy/grid.py (MetaGrid), imag
            'float rounding of grid.py not modelled (exact stream bit-exact); PIL crop/paste trusted to copy pixels']
 ASSUMPTIONS = ['resolutions positive, bbox non-degenerate, tile size positive, meta size >= 1, buffer >= 0',
                'end to end: the grid extent is at least one pixel wide and high on the level (otherwise a truncated meta request has size 0)',
-               'the upstream picture depends on ground position only (section hypothesis: it is the sampling function of the model)',
-               'meta tiles of one request are distinguished by their bbox (fails for buffers >= the meta tile: known finding)']
+               'the upstream picture depends on ground position only (section hypothesis: it is the sampling function of the model)']
 EXPLANATION = ('crop pattern arithmetic proved over Z for all grids/meta sizes/buffers; real MetaGrid and TileManager '
                'compared with the model on an exact stream; tiles compared pixel by pixel with the tile fetched alone')
 
 PIC_MOD = 4093
-SIG_DEDUP = 'meta-dedup-by-bbox-drops-tile'
 
 
 # ----------------------------------------------------------------------------- grids
@@ -335,17 +333,7 @@ def oracle(ctx, gc, q, cfg, coords, level, steps, served, has_meta, reference, r
     missing = [c for c in valid if c not in stored_at]
     served_missing = [c for c, img in served if c is not None and img is None]
     if missing or served_missing:
-        # known finding: two meta tiles whose truncated bboxes coincide are taken for one
-        from mapproxy.grid import MetaGrid
-        same_bbox = False
-        if has_meta and not (cfg['minimize'] and len(valid) > 1):
-            mgi = MetaGrid(gc.grid, cfg['meta_size'], 0 if cfg['bulk'] else cfg['meta_buffer'])
-            seen = {}
-            for c in valid:
-                mt = mgi.meta_tile(c)
-                seen.setdefault(mt.bbox, set()).add(mgi.main_tile(c))
-            same_bbox = any(len(v) > 1 for v in seen.values())
-        sig = SIG_DEDUP if same_bbox else 'requested-tile-not-produced'
+        sig = 'requested-tile-not-produced'
         ctx.fail(sig, 'requested tiles %r are not produced (stored: %r)' % (missing or served_missing, sorted(stored_at)), rep)
     # request accounting
     for si, (reqs, rec) in enumerate(steps):
